@@ -175,4 +175,38 @@ def ruleFromItem (decKeyB : Bytes → Option Key) (it : Item) : Option Rule :=
       else (condFromItem decKeyB maxConditionNesting c).map fun cond => { action := act, cond := cond }
   | some _ => none                                         -- "wrong number of structure elements"
 
+/-! ### Signer as a stack item (signer.go:78-181) -/
+
+def itemsMapMA {α : Type} (dec : Item → Option α) : List Item → Option (List α)
+  | [] => some []
+  | x :: xs => match dec x with
+    | none => none
+    | some c => match itemsMapMA dec xs with
+      | none => none
+      | some cs => some (c :: cs)
+
+/-- one of the three lists of Signer.FromStackItem: an Array / Struct of at most 16 elements, each decoded. -/
+def listOfItems {α : Type} (dec : Item → Option α) (it : Item) : Option (List α) :=
+  match it.elems? with
+  | none => none                                           -- "not an array"
+  | some xs => if xs.length > maxSubitems then none else itemsMapMA dec xs   -- "too many elements"
+
+/-- Signer.FromStackItem (signer.go:113-181). The scope byte is NOT validated here (unlike DecodeBinary). -/
+def signerFromItem (decKeyB : Bytes → Option Key) (it : Item) : Option Signer :=
+  match it.elems? with
+  | some [a, sc, cs, gs, rs] =>
+    match a.toUint160, sc.toUint8, listOfItems Item.toUint160 cs,
+        listOfItems (fun x => x.tryBytes.bind decKeyB) gs, listOfItems (ruleFromItem decKeyB) rs with
+    | some acc, some s, some c, some g, some r =>
+      some { account := acc, scopes := s, allowedContracts := c, allowedGroups := g, rules := r }
+    | _, _, _, _, _ => none
+  | _ => none                                              -- "not an array" / "wrong number of structure elements"
+
+/-- Signer.ToStackItem (signer.go:78-108): all three lists are written whatever the scope byte. -/
+def signerToItem (encKeyB : Key → Bytes) (s : Signer) : Item :=
+  .array [.bytes (beBytes 20 s.account), .int s.scopes,
+    .array (s.allowedContracts.map fun h => .bytes (beBytes 20 h)),
+    .array (s.allowedGroups.map fun k => .bytes (encKeyB k)),
+    .array (s.rules.map (ruleToItem encKeyB))]
+
 end NeoModel.Witness
